@@ -1,13 +1,13 @@
 package eng
 
 import (
-	"errors"
-	"time"
 	"bytes"
 	"crypto/sha256"
 	"encoding/hex"
+	"errors"
 	"fmt"
 	"strings"
+	"time"
 
 	"filippo.io/sunlight/internal/ctlog"
 )
@@ -25,16 +25,16 @@ type treeRec struct {
 }
 
 type seqOracle struct {
-	w         *seqWorld
-	lockHist  []*treeRec
-	pubHist   []*ckInfo
-	trees     map[string]*treeRec // by checkpoint id
-	fails     []OracleFailure
-	tampered  bool
-	cacheLost bool
+	w                 *seqWorld
+	lockHist          []*treeRec
+	pubHist           []*ckInfo
+	trees             map[string]*treeRec // by checkpoint id
+	fails             []OracleFailure
+	tampered          bool
+	cacheLost         bool
 	pubRegressedMulti bool // a multi-instance publication regress (F3) was observed in this scenario
-	acks      []*seqSub
-	scenario  func() any
+	acks              []*seqSub
+	scenario          func() any
 }
 
 func newSeqOracle(w *seqWorld) *seqOracle {
